@@ -186,3 +186,23 @@ func (c *fakeClient) Members(context.Context) ([]olric.Member, error) {
 	}
 	return out, nil
 }
+
+// Scan iterates over a snapshot of the keys (goakt's registry scans: Actors, CountActorsByHost, ...).
+func (d *kvDMap) Scan(_ context.Context, _ ...olric.ScanOption) (olric.Iterator, error) {
+	d.st.mu.Lock()
+	defer d.st.mu.Unlock()
+	it := &kvIter{i: -1}
+	for k := range d.st.m {
+		it.keys = append(it.keys, k)
+	}
+	return it, nil
+}
+
+type kvIter struct {
+	keys []string
+	i    int
+}
+
+func (it *kvIter) Next() bool  { it.i++; return it.i < len(it.keys) }
+func (it *kvIter) Key() string { return it.keys[it.i] }
+func (it *kvIter) Close()      {}
